@@ -118,8 +118,6 @@ structure AnyCodec where
   cmp : α → α → Ordering := fun _ _ => .eq
   field : Option FieldImpl := none
 
-def natCmp (a b : Nat) : Ordering := compare a b
-
 def acUint (n : Nat) : AnyCodec where
   α := Nat
   c := uint n
